@@ -267,8 +267,9 @@ func swapInNs(seq []byte) []byte {
 // unmapped positions with '-'s
 func swapInGapsNs(seq []byte) []byte {
 	firstLetter := true
-	var firstLetterIndx int
-	var lastLetterIndx int
+	// if there is no letter at all (e.g. a record that only deletes), every position is external
+	firstLetterIndx := len(seq)
+	lastLetterIndx := -1
 
 	for i, L := range seq {
 		r, _ := utf8.DecodeRune([]byte{L})
